@@ -745,13 +745,154 @@ func (f *frame) invariants(st *State, li *loopInfo, ls *LoopSpec) (labels []stri
 			}
 		}
 	}
-	_ = ex
+	if f.needsAuto(li, ls) {
+		al, at, av := f.autoCandidates(st, li)
+		labels = append(labels, al...)
+		terms = append(terms, at...)
+		if len(variant) == 0 && (ls == nil || len(ls.Decreases) == 0) {
+			idx := ex.prog.autoVariantIdx(f.loopKey(li))
+			if idx < len(av) {
+				variant = []T{av[idx]}
+			}
+		}
+	}
+	return
+}
+
+func (f *frame) loopKey(li *loopInfo) string { return fmt.Sprintf("%s/loop%d", f.key, li.ordinal) }
+
+// needsAuto: loops without user annotations get inferred (and checked) bound invariants.
+func (f *frame) needsAuto(li *loopInfo, ls *LoopSpec) bool {
+	if li.isRange || f.ex.initMode {
+		return false
+	}
+	if ls != nil && (len(ls.Invariants) > 0 || ls.Unroll || ls.Terminates != "") {
+		return false
+	}
+	return true
+}
+
+// autoCandidates: Houdini-style candidate invariants over the variables a loop modifies, relative
+// to their values at loop entry and to the lengths of slices in scope. Candidates are *checked*
+// like user invariants (inv.init / inv.pres); those that fail are dropped and the function is
+// re-verified (see genObligations). Also returns candidate variants.
+func (f *frame) autoCandidates(st *State, li *loopInfo) (labels []string, terms []T, variants []T) {
+	ex := f.ex
+	entry := st.entries[f.loopKey(li)]
+	if entry == nil {
+		return
+	}
+	key := f.loopKey(li)
+	mods := f.loopMods(li)
+	type sl struct {
+		name string
+		v    VSlice
+	}
+	var lens []sl
+	for i, p := range f.fn.Params {
+		if v, ok := f.params[i].(VSlice); ok {
+			lens = append(lens, sl{"param_" + p.Name(), v})
+		}
+	}
+	for al, c := range f.cellOf {
+		if mods.allocs[al] {
+			continue
+		}
+		if v, ok := entry.cells[c].(VSlice); ok && al.Comment != "" {
+			lens = append(lens, sl{al.Comment, v})
+		}
+	}
+	type iv struct {
+		name string
+		t    T
+	}
+	var ints []iv
+	for i, p := range f.fn.Params {
+		if v, ok := f.params[i].(VInt); ok {
+			ints = append(ints, iv{"param_" + p.Name(), v.T})
+		}
+	}
+	for al, c := range f.cellOf {
+		if mods.allocs[al] || al.Comment == "" {
+			continue
+		}
+		if v, ok := entry.cells[c].(VInt); ok {
+			ints = append(ints, iv{al.Comment, v.T})
+		}
+	}
+	add := func(label string, t T) bool {
+		full := "auto." + label
+		if !ex.prog.autoAlive(key, full) {
+			return false
+		}
+		labels = append(labels, full)
+		terms = append(terms, t)
+		return true
+	}
+	for al := range mods.allocs {
+		c := f.cellOf[al]
+		if c == nil || al.Comment == "" {
+			continue
+		}
+		e0, live := entry.cells[c]
+		cur, live2 := st.cells[c]
+		if !live || !live2 {
+			continue
+		}
+		switch x := cur.(type) {
+		case VInt:
+			x0, ok := e0.(VInt)
+			if !ok {
+				continue
+			}
+			up := add(al.Comment+".ge_entry", tGe(x.T, x0.T))
+			down := add(al.Comment+".le_entry", tLe(x.T, x0.T))
+			nn := add(al.Comment+".ge0", tLe("0", x.T))
+			nn1 := add(al.Comment+".ge_m1", tLe(num(-1), x.T))
+			for _, s := range lens {
+				if add(al.Comment+".le_len_"+s.name, tLe(x.T, s.v.Len)) && up {
+					variants = append(variants, tSub(s.v.Len, x.T))
+				}
+				add(al.Comment+".lt_len_"+s.name, tLt(x.T, s.v.Len))
+			}
+			for _, y := range ints {
+				if add(al.Comment+".le_"+y.name, tLe(x.T, y.t)) && up {
+					variants = append(variants, tSub(y.t, x.T))
+				}
+				add(al.Comment+".lt_"+y.name, tLt(x.T, y.t))
+			}
+			if down && (nn || nn1) {
+				variants = append(variants, tAdd(x.T, "1"))
+			}
+		case VSlice:
+			y, ok := e0.(VSlice)
+			if !ok {
+				continue
+			}
+			mx, my := st.mem[x.R], entry.mem[y.R]
+			if len(mx) != len(my) {
+				continue
+			}
+			var meq []T
+			for i := range mx {
+				meq = append(meq, tEq(mx[i], my[i]))
+			}
+			if add(al.Comment+".suffix_of_entry", tAnd(tAnd(meq...), tLe(y.Off, x.Off), tEq(tAdd(x.Off, x.Len), tAdd(y.Off, y.Len)))) {
+				variants = append(variants, x.Len)
+			}
+			add(al.Comment+".prefix_of_entry", tAnd(tAnd(meq...), tEq(y.Off, x.Off), tLe(x.Len, y.Len)))
+		}
+	}
 	return
 }
 
 func (f *frame) loopEntry(st *State, li *loopInfo, ls *LoopSpec) bool {
 	ex := f.ex
 	f.runGhost(st, fmt.Sprintf("loop %d entry", li.ordinal))
+	if st.entries == nil {
+		st.entries = map[string]*State{}
+	}
+	st.entries[f.loopKey(li)] = st.clone()
 	labels, terms, _ := f.invariants(st, li, ls)
 	if ex.mode.Functional || ex.mode.Safety {
 		for i, t := range terms {
@@ -824,7 +965,14 @@ func (f *frame) loopEntry(st *State, li *loopInfo, ls *LoopSpec) bool {
 		st.heads[li.ordinal] = snap
 	}
 	if len(variant) == 0 && (ex.mode.Functional || ex.mode.Safety) {
-		f.ob(st, fmt.Sprintf("decreases.loop[%d]", li.ordinal), li.pos, "false", "loop has no variant (termination not shown)")
+		// no variant given and none inferred: termination of this loop is undecided (not refuted)
+		o := &Obligation{Fn: f.key, Kind: fmt.Sprintf("decreases.loop[%d]", li.ordinal), Name: fmt.Sprintf("%s#decreases.loop[%d]", f.key, li.ordinal),
+			Goal: "false", Desc: "loop has no variant (termination not shown)", Decls: ex.decls,
+			Result: &SolverResult{Status: "unknown", Raw: "no variant annotated or inferred", All: map[string]string{}}}
+		if li.pos.IsValid() {
+			o.Pos = ex.prog.fset.Position(li.pos)
+		}
+		ex.obs = append(ex.obs, o)
 	}
 	return !st.dead
 }
@@ -905,6 +1053,9 @@ func (f *frame) loopBackEdge(st *State, li *loopInfo, ls *LoopSpec) {
 		v0 := st.variants[li.header]
 		if len(v0) > 0 && len(variant) == len(v0) {
 			f.ob(st, fmt.Sprintf("decreases.loop[%d]", li.ordinal), li.pos, lexLess(variant, v0), "loop variant decreases and is bounded below")
+			if f.needsAuto(li, ls) && (ls == nil || len(ls.Decreases) == 0) && len(ex.obs) > 0 {
+				ex.obs[len(ex.obs)-1].autoVariant = f.loopKey(li)
+			}
 		}
 	}
 }
